@@ -28,6 +28,11 @@ def install_cuts(E):
         """cut: the positional take / index restoration is pandas code; the positions are the result"""
         return FakeSeries(ilocs.ravel() if hasattr(ilocs, "ravel") else ilocs, None)
 
+    def _build_group_sorted_index(self, inner_index=None):
+        """cut: the (group label, original index) MultiIndex is pandas code"""
+        return FakeIndex(len(self))
+
+    GB._build_group_sorted_index = _build_group_sorted_index
     GB._get_row_selection = _get_row_selection
     GB._preprocess_arguments = _preprocess_arguments
     GB._convert_arr_to_pandas_series = _convert_arr_to_pandas_series
